@@ -1,6 +1,7 @@
 import GoaktVerif.Model.C15
 import GoaktVerif.Spec.C15
 import GoaktVerif.Lemmas.C15Final
+import GoaktVerif.Lemmas.C15LossFinal
 
 /-
 C15 — "Every Ask (PID.Ask, the package-level Ask, SendSync, ReceiveContext.Ask, BatchAsk) returns either the
@@ -21,12 +22,6 @@ def ownReply (c : Cfg) : Bool :=
     | .ask k, .reply v => v == k
     | _, _ => true
 
-/-- on a log (latest first): no Ask timed out after `Response` for it had already returned -/
-def noLossLog : List Ev → Bool
-  | [] => true
-  | .timedOut k :: earlier => !earlier.contains (.respDone k) && noLossLog earlier
-  | _ :: earlier => noLossLog earlier
-
 def noLoss (c : Cfg) : Bool := noLossLog c.log
 
 def askIds (progs : List (List Op)) : List ReqId :=
@@ -37,12 +32,16 @@ one worker at a time on an actor — property C01) -/
 def wf (progs : List (List Op)) : Bool :=
   decide (askIds progs).Nodup && decide ((progs.filter (·.contains .handle)).length ≤ 1)
 
-/-- the full property, for the code as it is (both pools in use) -/
-def C15_full : Prop :=
+/-- the full property for a variant of the protocol -/
+def Holds (mode : Mode) : Prop :=
   ∀ progs, wf progs = true → ∀ acts : List Act,
-    ownReply (runActs (init .asIs progs) acts) = true ∧ noLoss (runActs (init .asIs progs) acts) = true
+    ownReply (runActs (init mode progs) acts) = true ∧ noLoss (runActs (init mode progs) acts) = true
 
-/-! ### refutation (a): an in-time reply is dropped — replayed on the real code (corpus/C15/witness.case) -/
+/-- the full property, for the code as it is (since fix d1a16fa: `Mode.fixed`; both pools in use) -/
+def C15_full : Prop := Holds .fixed
+
+/-! ### the code before fix d1a16fa, refutation (a): an in-time reply is dropped — replayed on the real pre-fix code
+(seeded/C15-revert-fix; the schedule is kept in corpus/C15 as a passing case) -/
 
 def lossProgs : List (List Op) := [[.ask 1], [.ask 2, .ask 3, .ask 4], [.handle, .handle, .handle, .handle]]
 
@@ -74,14 +73,15 @@ theorem C15_cross_witness :
     ((runActs (init .asIs crossProgs) crossActs).threads.map (·.hist.reverse)).take 2 =
       [[(.ask 1, .timeout)], [(.ask 2, .reply 1)]] := by decide
 
-theorem C15_refuted : ¬ C15_full := by
+/-- the code as it was before fix d1a16fa (`Mode.asIs`) violates the property -/
+theorem C15_asIs_refuted : ¬ Holds .asIs := by
   intro h
   have := (h lossProgs C15_loss_witness.1 lossActs).2
   rw [C15_loss_witness.2.1] at this
   cases this
 
 /-- each clause fails on its own -/
-theorem C15_refuted_ownReply :
+theorem C15_asIs_refuted_ownReply :
     ¬ (∀ progs, wf progs = true → ∀ acts, ownReply (runActs (init .asIs progs) acts) = true) := by
   intro h
   have := h crossProgs C15_cross_witness.1 crossActs
@@ -123,6 +123,34 @@ theorem C15_fixed_ownReply :
   obtain ⟨own0, h0⟩ := finv_init progs hcnt
   obtain ⟨own1, h1⟩ := finv_runActs acts _ own0 h0
   exact ownReply_of_finv h1
+
+theorem askIds_eq (progs : List (List Op)) : askIds progs = progs.flatMap (·.filterMap askId) := by
+  unfold askIds
+  induction progs with
+  | nil => rfl
+  | cons p ps ih =>
+    simp only [List.flatten_cons, List.filterMap_append, List.flatMap_cons]
+    rw [← ih]
+    congr 1
+
+/-- no in-time reply is lost, for every schedule (invariant `NInv`, Lemmas/C15Loss*.lean: request ids occur once; a
+pending context carries a built, not yet answered id and the caller waiting for that id waits on that context; a
+caller at its select has its reply in its channel as soon as `Response` for it has returned) -/
+theorem C15_fixed_noLoss :
+    ∀ progs, wf progs = true → ∀ acts : List Act, noLoss (runActs (init .fixed progs) acts) = true := by
+  intro progs hwf acts
+  simp only [wf, Bool.and_eq_true, decide_eq_true_eq] at hwf
+  obtain ⟨own0, h0⟩ := finv_init progs hwf.2
+  have n0 := ninv_init progs (by rw [← askIds_eq]; exact hwf.1)
+  obtain ⟨own1, _, n1⟩ := both_runActs acts _ own0 h0 n0
+  exact n1.noloss
+
+/-- the protocol as it is now satisfies the full property -/
+theorem C15_holds : C15_full :=
+  fun progs hwf acts => ⟨C15_fixed_ownReply progs hwf acts, C15_fixed_noLoss progs hwf acts⟩
+
+/-- non-vacuity of `wf`: two callers with three requests and one worker -/
+example : wf [[.ask 1, .ask 2], [.ask 3], [.handle, .handle, .handle]] = true := by decide
 
 /-- the two refutation schedules are harmless on the repaired protocol (tests of the model, not theorems about all
 schedules): no reply is lost, no reply is cross-delivered -/
